@@ -11,11 +11,7 @@ structure ServeSt where
   seq : Nat := 0
   dead : Bool := false
 
-partial def decodeAllReplies (b : Bytes) (acc : List Reply) : Option (List Reply) :=
-  if b.isEmpty then some acc.reverse else
-  match Resp.decode (b.length + 2) b with
-  | some (r, rest) => if rest.length < b.length then decodeAllReplies rest (r :: acc) else none
-  | none => none
+-- the reply-stream decoder is `Resp.decodeAllReplies` (Resp/Reply.lean; total, `Resp.decodeAllReplies_encode`, `Exec.C03.pipeline_replies`)
 
 def sentinelToken (seq : Nat) : Bytes := ofStr s!"verif-sentinel-{seq}"
 def sentinelCmd (seq : Nat) : Bytes := Resp.encodeCmd [ofStr "PING", sentinelToken seq]
